@@ -919,6 +919,44 @@ def u19(ctx, rid):
         ctx.ok(rid, key, f.where(), 'every Ok return passes the append or the completed duplicate check')
 
 
+def u20(ctx, rid):
+    """C01.R8 instance: `delete` / `write` stamp the record with the timestamp the client passed"""
+    import props.c01 as c01
+    c01.r8(ctx, rid)
+
+
+def u21(ctx, rid):
+    """the metadata handed to `delete_with` is what the deletion marker will carry - it is not a search condition: no lookup in
+    the delete path (get_latest_entry / get_entry / contains / read ..) receives it.  Used as a filter, a key that is live under
+    other metadata looks absent, the conditional delete appends nothing and the key stays readable"""
+    prog = ctx.prog
+    LOOKUPS = ('get_latest_entry', 'get_entry_with_meta', 'get_entry', 'contains', 'contains_with', 'read_latest', 'get_any', 'get_latest', 'get_all', 'read_with', 'check_filter')
+    n = 0
+    bad = None
+    for f in prog.fns.values():
+        root = prog.fns[f.id].root
+        last = root.rsplit('::', 1)[-1]
+        if not (f.file in ('src/storage/core.rs', 'src/blob/core.rs') and last.startswith('delete')):
+            continue
+        n += 1
+        for c in f.calls:
+            if c.bb not in f.reachable() or c.name not in LOOKUPS:
+                continue
+            for a in c.args[1:]:
+                l = op_local(a)
+                if l is None or 'Meta' not in f.locals[l]['s']:
+                    continue
+                ogs = core.origins_ip(prog, f, a, depth=1)
+                if any(o.kind in ('arg', 'upvar') and 'Meta' in (o.fn.locals[o.data]['s'] if o.kind == 'arg' and isinstance(o.data, int) else 'Meta') for o in ogs):
+                    bad = c
+    if n < 4:
+        raise core.AnchorLost('delete bodies of the storage / blob code: %d' % n)
+    if bad:
+        ctx.bad(rid, 'marker-meta-is-not-a-filter', bad.where(), 'the metadata of the deletion marker is passed to the lookup `%s` as a search condition: a key that is live under other metadata is treated as absent and the conditional delete is dropped' % bad.name)
+    else:
+        ctx.ok(rid, 'marker-meta-is-not-a-filter', '', 'no lookup in %d delete bodies receives the marker metadata' % n, nontrivial=False, queries=n)
+
+
 RULES = [
     Rule('C02.U1', 'the append in the write path is dominated by the duplicate policy branch; a found duplicate is acknowledged without storing', u1, 1),
     Rule('C02.U2', 'closed blobs are only ever marked with only_if_presented = true', u2, 2),
@@ -936,6 +974,8 @@ RULES = [
     Rule('C02.U15', 'read_all strips exactly the trailing deletion marker of the marker-terminated list', u15, 1),
     Rule('C02.U16', 'the storage point lookups answer only after the traversal of all blobs completed', u16, 2),
     Rule('C02.U17', 'whether a lookup is restricted by metadata depends on Some / None only (an empty map is a map)', u17, 1),
+    Rule('C02.U20', 'delete and write stamp the record with the client timestamp (C01.R8 instance)', u20, 2),
+    Rule('C02.U21', 'the metadata of a deletion marker is never used as a lookup filter', u21, 1),
     Rule('C02.U18', 'an unconditional delete of a blob always appends a marker', u18, 1),
     Rule('C02.U19', 'a write is acknowledged without an append only after the duplicate check', u19, 1),
     Rule('C02.U6', 'the point lookup consults every candidate closed blob before it returns Ok', u6, 1),
